@@ -94,6 +94,7 @@ pub fn model_predict(model: &mut Model, bytes: &[u8], cfg: &Cfg, auth: bool) -> 
         let table = ref_stream_table(&delivered);
         let m = model.call(json!({"cmd":"comp.failsafe","stream":hx(&delivered),"streams":table}));
         if m["table_mismatch"].as_u64().unwrap_or(0) != 0 {
+            if let Ok(d) = std::env::var("VERIF_DUMP_MISMATCH") { let _ = std::fs::write(d, json!({"cmd":"comp.failsafe","stream":hx(&delivered),"streams":ref_stream_table(&delivered),"params":params_json()}).to_string()); }
             return Some(Err(format!("model-internal: the model's RFC 7932 decoder and the brotli crate disagree on {} stream prefix(es)", m["table_mismatch"])));
         }
         (unhx(&m["delivered"]), m["err"] == true)
